@@ -136,8 +136,8 @@ def cbmc_cmd(q, gb, backend, extra=None):
         cmd += SAFETY_FLAGS
     if q.unwind is not None:
         cmd += ["--unwind", str(q.unwind)]
-    if q.unwindset:
-        cmd += ["--unwindset", ",".join(q.unwindset)]
+    # CBMC's library model of memcmp is a byte loop: give it room for the small constant-size comparisons a refactor may introduce
+    cmd += ["--unwindset", ",".join(["memcmp.0:72"] + list(q.unwindset))]
     cmd += q.extra
     cmd += BACKENDS[backend]
     cmd += ["--json-ui", "--verbosity", "8"]
